@@ -13,7 +13,7 @@
      is not below the last reported likelihood (the iteration where the convergence test fired included);
    - cases of rounds 1-3 whose estimator object went through other calls before (wrapped unchanged). *)
 From Coq Require Import ZArith QArith Qabs Floats List Bool.
-From ADV Require Import Base.Num Base.Corr C16.Model C16.Corr C16.ModelVec C16.Corr3 C16.ModelObj.
+From ADV Require Import Base.Num Base.Corr C16.Model C16.Corr C16.ModelVec C16.Corr3 C16.ModelObj C16.ModelNum.
 Import ListNotations.
 
 (* what Go let the caller observe at a call *)
@@ -28,6 +28,7 @@ Inductive case6 :=
 | C6SeqCat (k : nat) (hp : list (list nat)) (ops : list (op nat float)) (outs : list gout)
 | C6EmFinal (fam : Z) (K J : nat) (xs : list nat) (eps : float) (max_steps : option nat)
             (trace : list hook) (final : list float * list (list float))
+| C6Num (gs : option (list float)) (calls : list (list float * float))   (* round 7: NumericEstimator's objective *)
 | C6Base (c : Corr.case)
 | C6R3 (c : case3).
 
@@ -167,11 +168,25 @@ Definition check_final (tab : exptab) (fam : Z) (K J : nat) (xs : list nat) (eps
       end
   end.
 
+(* ---------------- round 7: the objective of NumericEstimator (numeric.go) ---------------- *)
+(* every evaluation observed through the Hook: the reported weighted log-likelihood is BIT-EXACTLY the model's fold over
+   Go's per-observation log-densities at the same variables (-Inf = None on both sides; a NaN never matches) *)
+Definition lwf_eqb (a b : option float) : bool :=
+  match a, b with
+  | None, None => true
+  | Some x, Some y => PrimFloat.eqb x y || (feqb x y && PrimFloat.eqb x x)
+  | _, _ => false
+  end.
+Definition check_num (tab : exptab) (gs : option (list float)) (calls : list (list float * float)) : bool :=
+  forallb (fun c : list float * float =>
+             lwf_eqb (num_hook NumF (tabexp tab) (map f2lw (fst c)) (option_map (map f2lw) gs)) (f2lw (snd c))) calls.
+
 Definition check6 (tab : exptab) (c : case6) : bool :=
   match c with
   | C6Seq f hp ops outs => check_seq tab f hp ops outs
   | C6SeqCat k hp ops outs => check_seq_cat tab k hp ops outs
   | C6EmFinal fam K J xs eps ms tr final => check_em tab fam K J xs eps ms tr && check_final tab fam K J xs eps ms tr final
+  | C6Num gs calls => check_num tab gs calls
   | C6Base c => Corr.check tab c
   | C6R3 c => check3 tab c
   end.
